@@ -402,6 +402,9 @@ pub fn lie(w: &World, zi: usize, variant: usize) -> Option<(Nm, u16, Resp, &'sta
         n
     };
     let www = sub("www");
+    if variant >= 21 {
+        return relabelled_star_lie(w, zi, variant - 21, r);
+    }
     if variant >= 14 {
         return dname_lie(w, zi, variant - 14, r);
     }
@@ -589,6 +592,135 @@ fn replayed_wildcard_nsec(w: &World, zi: usize, variant: usize, mut r: Resp) -> 
         r.add(1, z.idx, rr, sigs, Some(&new_owner), Role::NsecCoverQname);
     }
     Some((q, T_A, r, label))
+}
+
+/// The next-name field of an NSEC RDATA (uncompressed wire name).
+fn nsec_next(rdata: &[u8]) -> Option<Nm> {
+    let mut p = 0;
+    loop {
+        let l = *rdata.get(p)? as usize;
+        if l > 63 {
+            return None;
+        }
+        p += 1 + l;
+        if l == 0 {
+            return Some(rdata[..p].to_vec());
+        }
+    }
+}
+
+/// A genuine RRset owned by a wildcard (`*.wild A/TXT/NSEC`, `*.wc NSEC`; RRSIG
+/// Labels field = labels of the wildcard's parent) moved, with its RRSIG, to a
+/// *deeper* owner name whose leftmost label is again a literal `*`
+/// (`*.x.wild`, `*.bar.wild`, `*.!.wild`). RFC 4035 §5.3.2 rebuilds
+/// `*.<rightmost Labels labels>` for every such owner, so the signature
+/// verifies; RFC 4035 §5.3.4 / RFC 4592: Labels < number of labels of the
+/// owner (not counting root *or a leading asterisk that is part of the
+/// original owner*, i.e. owner != `*.<rightmost Labels labels>`) means the
+/// RRset is an expansion whatever its leftmost label looks like. The answer
+/// needs the proof that no closer match exists, and an expanded NSEC is no
+/// node of the chain. Every response here states something false about the
+/// zone (or lacks the mandatory proof):
+///  0: `*.x.wild A` answered with the relabelled `*.wild A` plus the genuine
+///     denial record of `x.wild` (which exists, so `*.wild` does not apply
+///     and `*.x.wild` does not exist)
+///  1: the same without any authority data
+///  2: `*.bar.wild TXT` answered with the relabelled RRset without proof
+///  3: NODATA for `*.x.wild MX` "proved" by `*.wild NSEC` relabelled `*.x.wild`
+///  4: NXDOMAIN for `foo.wild` (exists through the wildcard) with `*.wild
+///     NSEC` relabelled `*.!.wild` (covers `*.wild` and `foo.wild`)
+///  5: the same for the wildcard CNAME: `foo.wc`, `*.wc NSEC` as `*.!.wc`
+///  6: NXDOMAIN for `www` (exists) with `*.wild NSEC` relabelled `*.x.wild`
+///     (owner > next: reads as the last record of the chain and covers
+///     everything after it) plus the genuine record covering `*.<apex>`
+///  7: NXDOMAIN for the literal name `*.wild` with `*.wild NSEC` as `*.!.wild`
+/// In NSEC3 zones there is no wildcard-owned denial record whose signature
+/// survives a move; variants 3.. fall back to 0..2 there (the positive
+/// answers do not depend on the denial type).
+fn relabelled_star_lie(w: &World, zi: usize, variant: usize, mut r: Resp) -> Option<(Nm, u16, Resp, &'static str)> {
+    let z = &w.zones[zi];
+    let nsec3 = z.shape.denial != Denial::Nsec;
+    let sub = |l: &str| {
+        let mut n = z.apex.clone();
+        for x in l.split('.').rev() {
+            n = prepend(x.as_bytes(), &n);
+        }
+        n
+    };
+    let mut v = variant % 8;
+    if nsec3 && v >= 3 {
+        v %= 3;
+    }
+    const POS_EXISTS: &str = "lie-wildcard-relabelled-star-owner-closer-name-exists";
+    const POS_NOPROOF: &str = "lie-wildcard-relabelled-star-owner-without-proof";
+    const NODATA: &str = "lie-nodata-wildcard-nsec-relabelled-star-owner";
+    const NXD: &str = "lie-nxdomain-wildcard-nsec-relabelled-star-owner";
+    let relabel_nsec = |r: &mut Resp, wc: &Nm, new_owner: &Nm, role: Role| -> Option<Nm> {
+        let wn = z.node(wc)?;
+        let rr = wn.rrsets.get(&T_NSEC)?;
+        let sigs = wn.sigs.get(&T_NSEC)?;
+        let next = nsec_next(&rr[0].rdata)?;
+        r.add(1, z.idx, rr, sigs, Some(new_owner), role);
+        Some(next)
+    };
+    let lt = |a: &[u8], b: &[u8]| canon_cmp(a, b) == std::cmp::Ordering::Less;
+    match v {
+        0 | 1 => {
+            let q = sub("*.x.wild");
+            let x = sub("x.wild");
+            let wn = z.node(&sub("*.wild"))?;
+            r.add_node_set(0, z, wn, T_A, Some(&q), Role::Data);
+            if v == 0 {
+                if nsec3 {
+                    r.add_n3(z, z.n3_match(&x)?, Role::N3CoverNextCloser);
+                } else {
+                    r.add_node_set(1, z, z.node(&x)?, T_NSEC, None, Role::NsecCoverQname);
+                }
+            }
+            Some((q, T_A, r, POS_EXISTS))
+        }
+        2 => {
+            let q = sub("*.bar.wild");
+            let wn = z.node(&sub("*.wild"))?;
+            r.add_node_set(0, z, wn, T_TXT, Some(&q), Role::Data);
+            Some((q, T_TXT, r, POS_NOPROOF))
+        }
+        3 => {
+            let q = sub("*.x.wild");
+            r.add_soa(z);
+            relabel_nsec(&mut r, &sub("*.wild"), &q, Role::NsecMatch)?;
+            Some((q, T_MX, r, NODATA))
+        }
+        4 | 5 | 7 => {
+            let (wc, new_owner, q) = match v {
+                4 => (sub("*.wild"), sub("*.!.wild"), sub("foo.wild")),
+                5 => (sub("*.wc"), sub("*.!.wc"), sub("foo.wc")),
+                _ => (sub("*.wild"), sub("*.!.wild"), sub("*.wild")),
+            };
+            r.rcode = 3;
+            r.add_soa(z);
+            let next = relabel_nsec(&mut r, &wc, &new_owner, Role::NsecCoverQname)?;
+            // the forged record has to "cover" the name and the wildcard by
+            // plain canonical order, otherwise the lie is not even plausible
+            if !(lt(&new_owner, &wc) && lt(&new_owner, &q) && (lt(&q, &next) || !lt(&new_owner, &next)) && (lt(&wc, &next) || !lt(&new_owner, &next))) {
+                return None;
+            }
+            Some((q, T_A, r, NXD))
+        }
+        _ => {
+            let q = sub("www");
+            let new_owner = sub("*.x.wild");
+            r.rcode = 3;
+            r.add_soa(z);
+            let next = relabel_nsec(&mut r, &sub("*.wild"), &new_owner, Role::NsecCoverQname)?;
+            if !(lt(&next, &new_owner) && lt(&new_owner, &q)) {
+                return None;
+            }
+            let wc = prepend(b"*", &z.apex);
+            r.add_node_set(1, z, z.nsec_cover(&wc)?, T_NSEC, None, Role::NsecCoverWildcard);
+            Some((q, T_A, r, NXD))
+        }
+    }
 }
 
 /// Answers below `dn.<apex> DNAME ent.<apex>` in which the unsigned CNAME that
